@@ -21,6 +21,18 @@ Definition mem_le (A B : list string) : Prop := forall f, mem f A = true -> mem 
 Lemma incl_mem_le A B : incl A B -> mem_le A B.
 Proof. intros H f. rewrite !mem_In. apply H. Qed.
 
+(* a predicate naming no feature does not see the feature set *)
+Lemma eval_feature_free A B g : feature_free g = true -> eval A g = eval B g.
+Proof.
+  unfold feature_free. induction g; cbn [eval gate_feats]; intros H; try reflexivity.
+  - discriminate.
+  - destruct (gate_feats g1) eqn:E1; [|discriminate]. destruct (gate_feats g2) eqn:E2; [|discriminate].
+    now rewrite IHg1, IHg2.
+  - destruct (gate_feats g1) eqn:E1; [|discriminate]. destruct (gate_feats g2) eqn:E2; [|discriminate].
+    now rewrite IHg1, IHg2.
+  - now rewrite IHg.
+Qed.
+
 (* positive gates are monotone in the feature set *)
 Lemma eval_mono A B g : gate_positive g = true -> mem_le A B -> eval A g = true -> eval B g = true.
 Proof.
@@ -28,6 +40,7 @@ Proof.
   - apply L.
   - apply andb_true_iff in P. destruct P as [Pa Pb]. rewrite !andb_true_iff. intros [Ha Hb]. auto.
   - apply andb_true_iff in P. destruct P as [Pa Pb]. rewrite !orb_true_iff. intros [Ha | Hb]; auto.
+  - now rewrite (eval_feature_free A B g P).
 Qed.
 
 Lemma active_mono A B i :
